@@ -138,4 +138,12 @@ def build(u):
                 make_r_sub("R-path", r"syn::Error::new_spanned\(att, ErrorMsg::ContainerAttr\)", "verr_container(att)"),
                 make_r_sub("R-strfn", r"ident\.to_string\(\)\.to_snake_case\(\)", "vsnake_ident(ident)")],
          spec="ensures\n    // the container's rename attribute, else the snake_case of the type name; any other container attribute is an error\n    r is Ok <==> table_name_of(*ident, attrs@) is Some,\n    r is Ok ==> r->Ok_0@ == table_name_of(*ident, attrs@)->Some_0,")
+    # per-run syntactic check (token assembly is not under contract): the enum-wide fast-path flag starts true and is only ever AND-ed with a
+    # variant's own test - `is_all_valid = ..` (an assignment) or another operator would let one variant decide for all
+    src = u.src(L)
+    assigns = re.findall(r"is_all_valid\s*([&|^+\-*/]?=)(?!=)\s*([^;]*);", src)
+    ok = bool(assigns) and all((op == "=" and rhs.strip() == "true") or (op == "&=" and re.fullmatch(r"\w+\.must_be_valid_iden\(\)", rhs.strip())) for op, rhs in assigns) \
+        and any(op == "&=" for op, _ in assigns)
+    if not ok:
+        u.stubbed["derive::impl_iden_for_enum[is_all_valid accumulation]"] = {"reason": "Unsupported: `is_all_valid` is not `let mut is_all_valid = true` + `is_all_valid &= v.must_be_valid_iden()`: %r" % (assigns,), "props": list(P), "fname": "impl_iden_for_enum"}
     u.emit("} // verus!\nfn main() {}\n")
